@@ -93,6 +93,9 @@ deriving DecidableEq, Repr, Inhabited
 
 /-- `schema_type`: `Single t`, `Multiple [t, null]`, anything else -/
 inductive TySet | single (t : JT) | nullable (t : JT) | other
+  /-- `anyOf | oneOf: [<schema of type t with the keywords>, {type: null}]` (what pydantic / FastAPI write for an optional
+  constrained member): the OUTER schema has neither `type` nor keywords, the member's type comes from the unwrapped variant -/
+  | wrapped (t : JT)
 deriving DecidableEq, Repr, Inhabited
 
 /-- the constraint keywords of one schema object (the part of `ObjectSchema` the mechanism reads) -/
@@ -129,11 +132,15 @@ def isArray (c : Cons) : Bool :=
   | _ => false
 def jt (c : Cons) : Option JT :=
   match c.ty with
-  | .single t | .nullable t => some t
+  | .single t | .nullable t | .wrapped t => some t
   | .other => none
 def tyNullable (c : Cons) : Bool :=
   match c.ty with
-  | .nullable _ => true
+  | .nullable _ | .wrapped _ => true
+  | _ => false
+def isWrapped (c : Cons) : Bool :=
+  match c.ty with
+  | .wrapped _ => true
   | _ => false
 def hasNumericKw (c : Cons) : Bool := c.minimum.isSome || c.maximum.isSome || c.exMin.isSome || c.exMax.isSome
 def hasStringKw (c : Cons) : Bool := c.minLength.isSome || c.maxLength.isSome || c.pattern.isSome
@@ -349,6 +356,11 @@ def extract (compiles : List Char → Bool) (req : Bool) (c : Cons) (tr : TRef) 
     fmtAttrs c ++ (lengthAttr c.minItems c.maxItems false).toList
   else fmtAttrs c
 
+/-- what a member gets: the keywords of a nullable WRAPPER sit inside its variant, `extract_all_validation` is handed the
+OUTER schema, which has none (finding F16-9); otherwise `extract` -/
+def extractW (compiles : List Char → Bool) (req : Bool) (c : Cons) (tr : TRef) : List VAttr :=
+  if c.isWrapped then [] else extract compiles req c tr
+
 /-! ### field schemas and the resolved type -/
 
 /-- schema of a member / parameter in the fragment -/
@@ -384,13 +396,13 @@ def FS.target : FS → Option Name
 calls `extract_all_validation(.., is_required, schema, final_type)` -/
 def memberAttrs (compiles : List Char → Bool) (req : Bool) (s : FS) : List VAttr :=
   match s.cons with
-  | some c => extract compiles req c ⟨s.base, !req || s.tyNullable⟩
+  | some c => extractW compiles req c ⟨s.base, !req || s.tyNullable⟩
   | none => []
 
 /-- attributes of a parameter: `resolve_with_metadata` calls it with the type BEFORE `with_option` -/
 def paramAttrs (compiles : List Char → Bool) (req : Bool) (s : FS) : List VAttr :=
   match s.cons with
-  | some c => extract compiles req c ⟨s.base, s.tyNullable⟩
+  | some c => extractW compiles req c ⟨s.base, s.tyNullable⟩
   | none => []
 
 /-! ### Sem: what the emitted `validator` attributes mean (TRUSTED layer, exercised by the arena) -/
@@ -526,6 +538,10 @@ numeric type (`int64`, `double`, …) —: minLength, maxLength and pattern are 
 def KnownSpecialFormatSkipsLength (c : Cons) : Bool :=
   c.isFreeformString && c.notStringTyped && c.hasStringKw
 
+/-- a constrained scalar / array written inside a nullable wrapper `anyOf | oneOf [.., {type: null}]`: no keyword is seen -/
+def KnownWrapperConstraintsLost (c : Cons) : Bool :=
+  c.isWrapped && (c.hasNumericKw || c.hasStringKw || c.hasArrayKw || c.isEmailFmt || c.isUrlFmt)
+
 /-- a pattern the `regex` crate rejects is dropped with a warning -/
 def KnownUncompilableRegex (rx : Rx) (c : Cons) : Bool :=
   c.isFreeformString && (match c.pattern with | some p => !rx.compiles p | none => false)
@@ -586,7 +602,7 @@ def litExact (c : Cons) : Bool :=
 def Clean (rx : Rx) (l : Leaf) : Bool :=
   l.c.wellKinded && !l.c.hasEnum &&
   !KnownNullableNumeric l.c && !KnownNullableArray l.c && !KnownItemConstraintsLost l &&
-  !KnownSpecialFormatSkipsLength l.c && !KnownUncompilableRegex rx l.c &&
+  !KnownSpecialFormatSkipsLength l.c && !KnownUncompilableRegex rx l.c && !l.c.isWrapped &&
   (!l.c.isNumeric || litExact l.c) &&
   (match l.c.jt with | some .string => !skipRegexBase (primOf l.c) || l.c.pattern.isNone | _ => true)
 
